@@ -25,6 +25,11 @@ def main():
         for n, ((p, desc, srcx), r) in enumerate(zip(muts, res)):
             if r["status"] == "clean":
                 json.dump({"path": p, "desc": desc, "src": srcx}, open(f"{d}/{n:04d}.json", "w"))
+        fired = {}
+        for r in res:
+            for ru in r.get("rules", []):
+                fired[ru] = fired.get(ru, 0) + 1
+        json.dump(fired, open(f"/verif/seeded/generic_fired_{prop}.json", "w"), indent=1, sort_keys=True)
         with open(f"/tmp/mutscore_{prop}.txt", "w") as f:
             k = sum(1 for r in res if r["status"] == "violation")
             e = sum(1 for r in res if r["status"] == "analysis-error")
